@@ -151,7 +151,7 @@ Proof. unfold write_at. cases_if'; cbn [fst snd]; auto; discriminate. Qed.
 
 Lemma b_errors_change_nothing_lemma s o : snd (b_step s o) = BErr -> fst (b_step s o) = s.
 Proof.
-  destruct o as [n|a|h|h n|w k be h off|w sg be h off v|w be h off bits|sh so dh doff len|h off len v|h|h1 h2|bs|h off len|h off bs|h st sp nd|h off len|h i j|]; cbn [b_step].
+  destruct o as [n|a|h|h n|w k be h off|w sg be h off v|w be h off bits|sh so dh doff len|h off len v|h|h1 h2|bs|h off len|h off bs|h st sp nd|h off len|h i j|h|h|]; cbn [b_step].
   - cases_if'; cbn [fst snd]; auto. destruct (store_resource s (repeat 0 (Z.to_nat n))). cbn. discriminate.
   - destruct a as [z| |]; cases_if'; cbn [fst snd]; auto; discriminate.
   - cases_if'; cbn [fst snd]; auto.
@@ -170,6 +170,8 @@ Proof.
   - (* find *) cases_if'; cbn [fst snd]; auto.
   - (* reverse *) cases_if'; cbn [fst snd]; auto; discriminate.
   - (* swap *) cases_if'; cbn [fst snd]; auto; discriminate.
+  - reflexivity.
+  - reflexivity.
   - reflexivity.
 Qed.
 
@@ -373,7 +375,7 @@ Lemma b_isolation_lemma s o k d :
   get_buf s k = Some d -> bop_writes o <> Some (Z.of_N k) -> get_buf (fst (b_step s o)) k = Some d.
 Proof.
   intros Hg Hw. rewrite <- Hg.
-  destruct o as [n|a|h|h n|w kd be h off|w sg be h off v|w be h off bits|sh so dh doff len|h off len v|h|h1 h2|bs|h off len|h off bs|h st sp nd|h off len|h i j|];
+  destruct o as [n|a|h|h n|w kd be h off|w sg be h off v|w be h off bits|sh so dh doff len|h off len v|h|h1 h2|bs|h off len|h off bs|h st sp nd|h off len|h i j|h|h|];
     cbn [b_step bop_writes] in *.
   - destruct (n <=? 0)%Z; [reflexivity|]. destruct (MAX_ALLOC <? Z.to_N n); [reflexivity|].
     destruct (store_resource s (repeat 0 (Z.to_nat n))) as [s' h0] eqn:E. cbn [fst].
@@ -422,6 +424,8 @@ Proof.
     destruct (get_buf s (Z.to_N h)) as [d0|]; [|reflexivity].
     destruct (nth_N d0 (Z.to_N i)); [|reflexivity]. destruct (nth_N d0 (Z.to_N j)); [|reflexivity].
     cbn [fst]. apply get_buf_set_ne. intro Hk. apply Hw. f_equal. lia.
+  - reflexivity.
+  - reflexivity.
   - reflexivity.
 Qed.
 
@@ -615,7 +619,7 @@ Lemma b_refines_lemma s m o :
   /\ BSim (fst (b_step s o)) (fst (bspec_step m o (snd (b_step s o)))).
 Proof.
   intro HS.
-  destruct o as [n|a|h|h n|w k be h off|w sg be h off v|w be h off bits|sh so dh doff len|h off len v|h|h1 h2|bs|h off len|h off bs|h st sp nd|h off len|h i j|];
+  destruct o as [n|a|h|h n|w k be h off|w sg be h off v|w be h off bits|sh so dh doff len|h off len v|h|h1 h2|bs|h off len|h off bs|h st sp nd|h off len|h i j|h|h|];
     cbn [b_step bspec_step].
   - (* alloc *)
     destruct (n <=? 0)%Z; [bsim_done HS|]. destruct (MAX_ALLOC <? Z.to_N n); [bsim_done HS|].
@@ -695,6 +699,8 @@ Proof.
     unfold buf, byte, value in *.
     destruct (nth_N d (Z.to_N i)); [|bsim_done HS]. destruct (nth_N d (Z.to_N j)); [|bsim_done HS].
     cbn [fst snd]. split; [reflexivity|]. apply bsim_set; [exact HS|eapply get_buf_lt; exact Hg].
+  - (* fs.close *) bsim_done HS.
+  - (* net.close *) bsim_done HS.
   - (* non-int operand *) bsim_done HS.
 Qed.
 
@@ -725,7 +731,7 @@ Qed.
 (* b_step never answers BBad, hence (by refinement) the specification never objects *)
 Lemma b_step_not_bad s o : snd (b_step s o) <> BBad.
 Proof.
-  destruct o as [n|a|h|h n|w k be h off|w sg be h off v|w be h off bits|sh so dh doff len|h off len v|h|h1 h2|bs|h off len|h off bs|h st sp nd|h off len|h i j|];
+  destruct o as [n|a|h|h n|w k be h off|w sg be h off v|w be h off bits|sh so dh doff len|h off len v|h|h1 h2|bs|h off len|h off bs|h st sp nd|h off len|h i j|h|h|];
     cbn [b_step]; try (destruct a); unfold write_at;
     repeat match goal with
            | |- context [if ?c then _ else _] => destruct c
@@ -798,7 +804,7 @@ Proof.
   intros Hg Hnr Hnf.
   destruct (option_Z_dec (bop_writes o) (Some (Z.of_N k))) as [Hw|Hw];
     [|exists d; split; [apply b_isolation_lemma; assumption|reflexivity]].
-  destruct o as [n|a|h|h n|w kd be h off|w sg be h off v|w be h off bits|sh so dh doff len|h off len v|h|h1 h2|bs|h off len|h off bs|h st sp nd|h off len|h i j|];
+  destruct o as [n|a|h|h n|w kd be h off|w sg be h off v|w be h off bits|sh so dh doff len|h off len v|h|h1 h2|bs|h off len|h off bs|h st sp nd|h off len|h i j|h|h|];
     cbn [bop_writes] in Hw; try discriminate; cbn [b_step].
   - destruct a as [z| |]; try discriminate. inversion Hw; subst z. exfalso. apply Hnf. reflexivity.
   - inversion Hw; subst h. exfalso. apply (Hnr n). reflexivity.
@@ -930,3 +936,8 @@ Proof.
   - replace (n <=? 0)%Z with true by lia. reflexivity.
   - destruct (h <? 0)%Z; [reflexivity|]. replace (n <=? 0)%Z with true by lia. reflexivity.
 Qed.
+
+(* fs.close / net.close applied to any handle of this table leave every byte buffer as it was *)
+Lemma foreign_close_harmless_lemma s h :
+  b_step s (BFsClose h) = (s, BErr) /\ fst (b_step s (BNetClose h)) = s.
+Proof. split; reflexivity. Qed.
